@@ -253,7 +253,7 @@ func genC16Chain(rt *rapid.T, exclReReg bool) *c16Chain {
 		last := uint64(0)
 		for j := 0; j < nReg && last < maxN; j++ {
 			r := last + uint64(rapid.IntRange(1, int(min(maxN-last, 14))).Draw(rt, fmt.Sprintf("%sreg%d", l, j)))
-			if j > 0 && exclReReg && c.fork && r+9 > c.f && regs[0][0]+reorgDepth <= c.a {
+			if j > 0 && len(regs) > 0 && exclReReg && c.fork && r+9 > c.f && regs[0][0]+reorgDepth <= c.a {
 				// a second registration that some rollback window could delete while the first lies below it
 				recC16.Excluded(sigReRegLost)
 				break
@@ -648,7 +648,7 @@ func c16Labels(c *c16Chain, hs []c16Head, p *c16Partition, fired map[string]stri
 
 func runC16Case(rt *rapid.T, nPartitions int) {
 	exclF9 := isKnown("C16", sigF9)
-	exclReReg := isKnown("C16", sigReRegLost)
+	exclReReg := isKnown("C16", sigReRegLost) || isKnown("C15", sigReRegLost) // recorded under C15; same code path
 	c := genC16Chain(rt, exclReReg)
 	defer c.m.close()
 	hs := c.heads()
